@@ -246,4 +246,65 @@ def attempt (r : Nat) (es : List Event) : List Event := es.foldl (attemptStep r)
 def expected (r : Nat) (p : Resp) (cDone aDone : Bool) : List Event :=
   [Event.fetched r p] ++ (if cDone then [Event.contents r p.b true] else []) ++ (if aDone then [Event.auth r p.b p.c true] else [])
 
+/-! ### the certificate path: `syncCert` / `fetchRound`
+
+The agreement service holds a VERIFIED certificate `trusted` for round `r` but not the block.  `fetchRound` loops:
+request the pair of round `r` from a peer; when the answer's block hashes to the digest in the trusted certificate
+(`hm`) and its payset matches its header (`cm`) it calls `EnsureBlock(block, trusted)` and returns; otherwise it asks
+again.  The peer's certificate is never authenticated on this path, so it must never be the one that is written. -/
+
+structure CertResp where
+  b : Id
+  c : Id
+  brnd : Nat
+  crnd : Nat
+  hm : Bool      -- block.Hash() == the digest of the trusted certificate
+  cm : Bool      -- block.ContentsMatchHeader()
+  deriving DecidableEq, Repr
+
+inductive CEvent where
+  | request                       -- a request for round r reaches a peer
+  | answer (p : CertResp)         -- a decodable pair came back
+  | err                           -- error / undecodable / cancelled
+  | ensure (b c : Id)             -- EnsureBlock(b, c)
+  deriving DecidableEq, Repr
+
+inductive CTask where
+  | ready
+  | waiting
+  | got (p : CertResp)
+  | finished
+  deriving DecidableEq, Repr
+
+def cstep (r : Nat) (trusted : Id) (t : CTask) : CEvent → Except String CTask
+  | .request =>
+    match t with
+    | .ready => .ok .waiting
+    | .got p => if p.hm ∧ p.cm then .error "cert-retry-dropping-the-block" else .ok .waiting
+    | _ => .error "cert-request-out-of-turn"
+  | .answer p =>
+    match t with
+    | .waiting => if p.brnd = r ∧ p.crnd = r then .ok (.got p) else .ok .ready     -- processBlockBytes
+    | _ => .error "answer-without-request"
+  | .err =>
+    match t with
+    | .waiting => .ok .ready
+    | _ => .error "answer-without-request"
+  | .ensure b c =>
+    match t with
+    | .got p =>
+      if p.hm = false then .error "ensure-wrong-hash"
+      else if p.cm = false then .error "ensure-unchecked-contents"
+      else if p.b ≠ b then .error "ensure-other-block"
+      else if c ≠ trusted then .error "ensure-untrusted-cert"
+      else .ok .finished
+    | _ => .error "ensure-without-block"
+
+def crun (r : Nat) (trusted : Id) : CTask → List CEvent → Except String CTask
+  | t, [] => .ok t
+  | t, e :: es =>
+    match cstep r trusted t e with
+    | .ok t' => crun r trusted t' es
+    | .error x => .error x
+
 end AlgoVerif.Model.Catchup
